@@ -267,13 +267,12 @@ def hygiene_scan():
 
 
 def _dep_key(vfile):
+    """the property file and its compiled object (make rebuilds the .vo whenever any dependency changed)"""
     h = hashlib.sha1(open(vfile, 'rb').read())
-    for sub in ('Base', 'Gen', 'Model', 'Proofs'):
-        d = os.path.join(COQ, sub)
-        for fn in sorted(os.listdir(d)):
-            if fn.endswith('.vo'):
-                st = os.stat(os.path.join(d, fn))
-                h.update(('%s:%d:%d;' % (fn, st.st_size, st.st_mtime_ns)).encode())
+    vo = vfile + 'o'
+    if os.path.exists(vo):
+        st = os.stat(vo)
+        h.update(('%d:%d' % (st.st_size, st.st_mtime_ns)).encode())
     return h.hexdigest()
 
 
